@@ -7,12 +7,14 @@ import (
 	"time"
 
 	sdk "github.com/cosmos/cosmos-sdk/types"
+	authtypes "github.com/cosmos/cosmos-sdk/x/auth/types"
 
 	"github.com/osmosis-labs/osmosis/osmomath"
 	pmclient "github.com/osmosis-labs/osmosis/v31/x/poolmanager/client"
 	pmgrpc "github.com/osmosis-labs/osmosis/v31/x/poolmanager/client/grpc"
 	"github.com/osmosis-labs/osmosis/v31/x/poolmanager/client/queryproto"
 	pmtypes "github.com/osmosis-labs/osmosis/v31/x/poolmanager/types"
+	txfeestypes "github.com/osmosis-labs/osmosis/v31/x/txfees/types"
 
 	"verif/harness/simchain"
 	"verif/harness/simcore"
@@ -486,6 +488,34 @@ func (w *world) probe(i int, base sdk.Context, s spec, f string) {
 	wl := w.whitelisted(base, s.trader)
 	if wl {
 		run.Probe("trader-on-reduced-fee-whitelist")
+	}
+	// (2) the per-hop taker fee is the configured one: every hop's pair reads back the settings, and the
+	// first hop of an exact-in route (whose input is known) pays in - floor(in*(1-fee)) to the collector
+	for h := range s.pools {
+		got, err := n.App.PoolManagerKeeper.GetTradingPairTakerFee(base, s.denoms[h], s.denoms[h+1])
+		if want := w.configuredFee(s.denoms[h], s.denoms[h+1]); err != nil || !got.Equal(want) {
+			w.fail("taker-fee-setting", "probe", "%s: hop %s>%s is charged taker fee %s (err %v), the settings prescribe %s", s, s.denoms[h], s.denoms[h+1], got, err, want)
+			return
+		}
+	}
+	if s.exactIn && !wl {
+		first := true
+		for h := 1; h < len(s.pools); h++ {
+			if s.denoms[h] == s.denoms[0] {
+				first = false
+			}
+		}
+		if first {
+			col := authtypes.NewModuleAddress(txfeestypes.TakerFeeCollectorName)
+			got := n.Balance(ctxA, col, s.denoms[0]).Sub(n.Balance(base, col, s.denoms[0]))
+			fee := w.configuredFee(s.denoms[0], s.denoms[1])
+			want := s.amount.Sub(s.amount.ToLegacyDec().Mul(osmomath.OneDec().Sub(fee)).TruncateInt())
+			if !got.Equal(want) {
+				w.fail("taker-fee-collected", kind, "%s: the collector received %s%s on the first hop, the configured fee %s prescribes %s", s, got, s.denoms[0], fee, want)
+				return
+			}
+			run.Count("first-hop-fee-checks")
+		}
 	}
 	if !s.exactIn && s.simple && !wl && len(s.pools) >= 2 {
 		if R := w.reverseHops(base, s); R.ok {
